@@ -41,12 +41,18 @@ P = {
  "C08": ("Coq proof (ledger tiling invariant: taken and destroyed intervals tile [0, min(counter,len))) + drop-ledger correspondence",
          "Theorems c08_known_kinds_run / c08_known_kinds_end_of_life: for consuming vectors and arrays, at every point of every schedule the moved-out and the machinery-destroyed intervals are pairwise disjoint and inside the source, and after drop or into_seq_iter (any number taken from the remainder) at any quiescent point they tile the source exactly: every element moved out or destroyed exactly once; for borrowed sources nothing is ever destroyed.",
          "Known-size consuming kinds proved; owning wrapped iterator by correspondence + extracted checker (partial)."),
+ "C09": ("Coq proof (wait-freedom of the known-size kinds by a per-thread step budget; termination of the wrapper over an arbitrary iterator under every fair schedule by a potential function, the ticket-coverage invariant and a two-steps-per-thread fairness unit) + frozen-thread adversary and hang detection on the crate + lock-step correspondence",
+         "Theorem c09_known_kinds_wait_free: in every reachable state of a known-size kind (slice, vector, array, range, under any adaptor), a thread inside a call has returned after at most budget (1 for every operation, one pull per element still to be handed out plus one for the loops) of ITS OWN steps in ANY continuation of the schedule -- the other threads may take any steps or none, so a thread frozen anywhere for ever delays nobody. Theorem c09_wrapped_iterator_fair_termination: for the wrapper over an arbitrary iterator (any size hint, any crash point of the wrapped iterator and of the closures), after any schedule, in any continuation made of stretches in each of which every thread takes at least two steps, once there have been more stretches than the potential phi of the state, every thread has finished its program and no call is pending. Proved with a potential that no step increases and every step other than a turn of the waiting loop decreases, and the invariant that, while the completed flag is down, the live tickets cover [yielded, reserved), so the ticket at the yielded counter is alive. On the crate: every case runs under a scheduler that reports a call that never returns (hang), all interleavings of tiny configurations are enumerated with parked spinners (deadlock detection in the model), and on the known-size kinds one thread is frozen at an arbitrary point while the others must finish; the schedules chosen under that adversary are replayed in lock-step on the model.",
+         "Fairness is stated finitarily (stretches with two steps of every thread) instead of coinductively; the bound phi is not claimed to be tight. The theorems assume the run does not wrap the counters (nowrap); wrapped runs are known finding F14."),
  "C10": ("Coq proof (quiescent-state tiling) + correspondence on into_seq_iter results",
          "Theorem c10_known_kinds: at every quiescent point of every schedule, into_seq_iter of a known-size kind yields exactly the elements from the delivered prefix on (all of them, in order, nothing duplicated or lost); after skip_to_end a suffix of the undelivered elements.",
          "Known-size kinds proved; wrapped iterator by correspondence + extracted checker (partial)."),
  "C13": ("Coq proof (the model gives the adaptors no behaviour of their own: equality of whole configurations for every schedule; ledger theorem: nothing of a borrowed source is ever destroyed) + twin lock-step correspondence on the crate (adaptor vs. its underlying iterator under the same schedule) + lock-step correspondence with the model",
          "Theorems c13_adaptor_transparent (for every environment, adaptor, program and schedule, the run and the end of life of the model under cloned()/copied() are equal, as whole configurations, to those of the underlying iterator: same results, indices, chunk boundaries, lengths, end and skip behaviour, same counters) and c13_source_untouched (for the known-size reference-yielding kinds, under any adaptor, no element of the source is destroyed by the machinery at any point of any schedule nor at the end of life). On the crate: every generated history is run on the adaptor and on an identical underlying reference-yielding iterator under the same schedule and the two event streams must be equal (this comparison does not go through the model); both are also compared with the model, and the extracted checkers (exactly-once, index fidelity, chunk contract, end, skip, ledger) judge the adaptor's traces.",
          "The transparency theorem is true by the construction of the model (step never reads e_adaptor); its content is that every other theorem of the development is thereby a theorem about the adaptors, and the tie to the crate's Cloned/Copied is the twin comparison, which is differential testing. The wrapped iterator of references under cloned() is covered by the ledger checker on traces, not by a theorem (partial there)."),
+ "C18": ("Coq proof (crash points are part of the environment and of the programs: the invariants, the ledger and the progress theorems quantify over them) + fault injection at every crash point on the crate with hang detection and drop ledger",
+         "Theorems c18_no_duplicate (every source kind, every crash point of the wrapped iterator's next() and of the closures, every schedule: no position is delivered twice), c18_others_return_known_kinds (wait-freedom: the other threads' calls return within their own step budget whatever the panicking thread did), c18_others_return_wrapped_iterator (fair termination of every call when the wrapped iterator panics at its k-th call, for every k, single, chunked and buffered pulls and loops) and c18_ledger_known_kinds (consumed vectors and arrays: every element moved out or destroyed exactly once, also when closures panic, at every point and at the end of life). On the crate: the generator injects a panic at every position of the wrapped iterator and of the closures, the scheduler detects calls that never return, the extracted ledger and index checkers judge the traces.",
+         "Panics of an element's clone (cloned() adaptor) are exercised on the crate only through the closure crash points, not as a separate crash kind of the model (partial on that clause); the ledger of the owning wrapped iterator under panics is judged by the extracted checker on traces, not yet by a theorem."),
  "C16": ("Coq proof (lia over the machine-word arithmetic layer) + boundary-matrix correspondence in both profiles",
          "Theorems c16_pull_arithmetic / c16_delivered_interval: for ALL b, n < 2^64, all lengths and all range bounds below 2^64, every pull of a known-size kind computes exactly [b, b+min(n,len-b)) (or the end), never panics, in both build modes. The boundary matrix of the property runs on the crate in the debug and the release harness and is compared with the model and judged by chk_C16/C02/C03.",
          "Run-level statement (chk_C16 on whole traces) is checked on implementation and model traces, not yet proved as a theorem; the wrapped iterator's reserved-counter wrap is known finding F14."),
@@ -56,10 +62,8 @@ P = {
 }
 
 NOT_YET = {
- "C09": "progress theorems in progress; not claimed in this snapshot",
  "C14": "bounds translator and compile probes in progress; not claimed in this snapshot",
  "C15": "allocation ledger in progress; not claimed in this snapshot",
- "C18": "crash machine theorems in progress; not claimed in this snapshot",
  "C19": "multi-iterator model in progress; not claimed in this snapshot",
 }
 
